@@ -282,6 +282,11 @@ fn sequences(alpha: &[Ev], len: usize) -> impl Iterator<Item = Case> + '_ {
 pub enum Bye {
     TcpClean,
     TcpResetWithUnreadReplies,
+    /// a WebSocket session that says good-bye with a close code the server's library refuses (1004, 999, 5000, 1016),
+    /// then closes the socket
+    WebSocketOddCloseCode { code: u16 },
+    /// a text frame that is no UTF-8 (the server starts the closing handshake), then a close frame, then the socket closes
+    WebSocketBadTextThenClose,
     TcpAfterANonUtf8Line,
     TcpHalfLineThenClose,
     /// the client asks for far more than the socket buffers hold (600 x a 64 kB value), reads nothing for a while, closes
@@ -298,7 +303,7 @@ pub struct TCase {
 }
 
 fn tcase_strategy() -> impl Strategy<Value = TCase> {
-    let bye = prop_oneof![2 => Just(Bye::TcpClean), 2 => Just(Bye::TcpResetWithUnreadReplies), 2 => Just(Bye::TcpAfterANonUtf8Line), 1 => Just(Bye::TcpHalfLineThenClose), 1 => Just(Bye::TcpSlowReader), 2 => Just(Bye::HttpRequests), 2 => Just(Bye::WebSocket)];
+    let bye = prop_oneof![2 => Just(Bye::TcpClean), 2 => Just(Bye::TcpResetWithUnreadReplies), 2 => Just(Bye::TcpAfterANonUtf8Line), 1 => Just(Bye::TcpHalfLineThenClose), 1 => Just(Bye::TcpSlowReader), 2 => Just(Bye::HttpRequests), 2 => Just(Bye::WebSocket), 2 => proptest::sample::select(vec![1004u16, 999, 5000, 1016, 1000]).prop_map(|code| Bye::WebSocketOddCloseCode { code }), 1 => Just(Bye::WebSocketBadTextThenClose)];
     prop::collection::vec(bye, 1..5).prop_map(|byes| TCase { byes })
 }
 
@@ -362,6 +367,44 @@ pub fn run_transport_case(srv: &crate::props::c10::TServer, case: &TCase) -> Out
                 }
                 let _ = observer.disconnect(&srv.node);
             }
+            Bye::WebSocketOddCloseCode { .. } | Bye::WebSocketBadTextThenClose => {
+                let mut s = match crate::transport::raw_ws_connect(srv.ws) {
+                    Ok(s) => s,
+                    Err(e) => {
+                        eprintln!("C17 transport engine: raw websocket: {}", e);
+                        out.nontrivial = false;
+                        return out;
+                    }
+                };
+                let _ = s.write_all(&crate::transport::raw_ws_frame(1, format!("use-db {} ptok", db).as_bytes()));
+                let mut counted = false;
+                for _ in 0..6000 {
+                    if count(srv) != "0" {
+                        counted = true;
+                        break;
+                    }
+                    crate::transport::real_sleep(std::time::Duration::from_millis(5));
+                }
+                if !counted {
+                    out.fail = Some(("C17|transport|session-not-counted".into(), format!("session {} ({:?}): use-db over WebSocket did not raise $connections within 30 s", i, bye)));
+                    return out;
+                }
+                match bye {
+                    Bye::WebSocketOddCloseCode { code } => {
+                        let _ = s.write_all(&crate::transport::raw_ws_frame(8, &code.to_be_bytes()));
+                    }
+                    _ => {
+                        let _ = s.write_all(&crate::transport::raw_ws_frame(1, b"get \xff\xfe"));
+                        crate::transport::real_sleep(std::time::Duration::from_millis(50));
+                        let _ = s.write_all(&crate::transport::raw_ws_frame(8, &1006u16.to_be_bytes()));
+                    }
+                }
+                crate::transport::real_sleep(std::time::Duration::from_millis(50));
+                let mut buf = [0u8; 256];
+                let _ = s.set_read_timeout(Some(std::time::Duration::from_millis(100)));
+                let _ = s.read(&mut buf);
+                drop(s);
+            }
             Bye::WebSocket => {
                 let _ = crate::transport::ws_exchange_until(srv.ws, vec![crate::transport::Frame::Text(format!("use-db {} ptok", db)), crate::transport::Frame::Text("get $connections".into())], "value", 30_000);
             }
@@ -420,7 +463,7 @@ pub fn run_transport_case(srv: &crate::props::c10::TServer, case: &TCase) -> Out
                         let _ = s.write_all("get big\n".repeat(600).as_bytes());
                         crate::transport::real_sleep(std::time::Duration::from_millis(1500));
                     }
-                    Bye::WebSocket | Bye::HttpRequests => unreachable!(),
+                    Bye::WebSocket | Bye::HttpRequests | Bye::WebSocketOddCloseCode { .. } | Bye::WebSocketBadTextThenClose => unreachable!(),
                 }
                 drop(s);
             }
